@@ -27,12 +27,13 @@ import (
 func init() {
 	kit.Register(&kit.Spec{
 		ID:     "C26",
-		Rule:   "case = (rule V0|V1, arbiter count 1..72, start offset 0..5n, signTolerance 1..10 s, start instant, final instant T in [0,3h] placed uniformly or within +-1 ns of a view boundary, poll schedule: none/uniform/bursty/one per boundary +-1 ns, 1..200 polls). distinct = distinct parameter tuple + schedule; non-trivial = at least one intermediate poll changed the view and T is past the first boundary",
+		Rule:   "case = (rule V0|V1, arbiter count 1..72, own arbiter index 0..n-1, start offset 0..5n, signTolerance 1..10 s, start instant, final instant T in [0,3h] placed uniformly or within +-1 ns of a view boundary, poll schedule: none/uniform/bursty/one per boundary +-1 ns, 1..200 polls). distinct = distinct parameter tuple + schedule; non-trivial = at least one intermediate poll changed the view and T is past the first boundary",
 		Shards: func(tier string) int { return 8 },
 		Run:    runC26,
 		Require: []string{"v0_cases", "v1_cases", "fold_equal_v0", "fold_equal_v1", "polls_that_changed_view", "cases_offset_beyond_round",
 			"cases_start_offset_beyond_round", "boundary_exact_T", "boundary_minus_1ns_T", "boundary_plus_1ns_T", "monotone_pairs_checked",
-			"schedule_uniform", "schedule_bursty", "schedule_boundary", "max:polls", "max:final_offset"},
+			"schedule_uniform", "schedule_bursty", "schedule_boundary", "max:polls", "max:final_offset",
+			"cases_self_on_duty_mid_view", "cases_self_on_duty_mid_view_first_round"},
 		Assumptions: []string{
 			"the judged evaluation is ChangeView/ChangeViewV1 (what Consensus.ChangeView calls); the gated TryChangeView* variants are recorded, not judged",
 			"arbiter count is constant between the evaluations of one case",
@@ -71,9 +72,26 @@ func c26RefV1(o uint32, d time.Duration, n uint32, consistent bool) (uint32, tim
 	return o, d
 }
 
+// c26KnownV1 folds the schedule exactly as the recorded defect
+// (viewchange:v1-first-step-vs-loop) predicts: first length for the carried-in
+// view, loop length afterwards, start moved only when the offset changes. It
+// is used ONLY to decide whether an observed divergence is that finding or a
+// different one; the verdict itself compares two runs of the real code.
+func c26KnownV1(cs *c26Case, times []int64) c26Result {
+	o, s := cs.Off0, int64(0)
+	for _, t := range times {
+		o2, rem := c26RefV1(o, time.Duration(t-s), uint32(cs.N), false)
+		if o2 != o {
+			o, s = o2, t-int64(rem)
+		}
+	}
+	return c26Result{Off: o, Start: s}
+}
+
 type c26Case struct {
 	Rule   int           `json:"rule"`
 	N      int           `json:"arbiters"`
+	Self   int           `json:"self_index"` // which arbiter the evaluating node is (on duty when offset % n == self)
 	Off0   uint32        `json:"start_offset"`
 	Tol    time.Duration `json:"sign_tolerance_ns"`
 	Start  int64         `json:"start_unix_ns"`
@@ -115,6 +133,7 @@ func c26Gen(r *rand.Rand, rule int) *c26Case {
 		cs.N = []int{1, 2, 12, 36, 72}[r.Intn(5)]
 	}
 	n := uint32(cs.N)
+	cs.Self = r.Intn(cs.N)
 	switch r.Intn(4) {
 	case 0:
 		cs.Off0 = 0
@@ -218,9 +237,14 @@ type c26Result struct {
 	Start int64 // relative to cs.Start
 }
 
+// c26OnDutyMidView counts intermediate evaluations after which the evaluating
+// node itself was on duty with a non-zero remainder inside the new view
+// (written only by the ungated folded evaluation of the current case).
+var c26OnDutyMidView int
+
 func c26Eval(cs *c26Case, times []int64, gated bool) (res c26Result, changed int, carriedBeyondRound bool) {
 	start := time.Unix(0, cs.Start)
-	v := manager.VerifNewView(cs.N, cs.Tol, start, cs.Off0, 0)
+	v := manager.VerifNewView(cs.N, cs.Tol, start, cs.Off0, byte(cs.Self))
 	for i, t := range times {
 		now := start.Add(time.Duration(t))
 		before := v.Offset
@@ -237,6 +261,9 @@ func c26Eval(cs *c26Case, times []int64, gated bool) (res c26Result, changed int
 		if i < len(times)-1 {
 			if v.Offset != before {
 				changed++
+				if !gated && v.OnDuty() && !v.Start().Equal(now) {
+					c26OnDutyMidView++
+				}
 			}
 			if v.Offset >= uint32(cs.N) {
 				carriedBeyondRound = true
@@ -273,9 +300,16 @@ func c26Check(c *kit.Ctx, cs *c26Case) {
 	var beyond bool
 	panicked, pv, _ = kit.Guard(func() {
 		one, _, _ = c26Eval(cs, []int64{cs.T}, false)
+		c26OnDutyMidView = 0
 		fold, changed, beyond = c26Eval(cs, append(append([]int64(nil), cs.Polls...), cs.T), false)
 	})
-	id := fmt.Sprintf("%d|%d|%d|%d|%d|%d|%v", cs.Rule, cs.N, cs.Off0, cs.Tol, cs.Start, cs.T, cs.Polls)
+	if c26OnDutyMidView > 0 {
+		c.Inc("cases_self_on_duty_mid_view")
+		if fold.Off < uint32(cs.N) {
+			c.Inc("cases_self_on_duty_mid_view_first_round")
+		}
+	}
+	id := fmt.Sprintf("%d|%d|%d|%d|%d|%d|%d|%v", cs.Rule, cs.N, cs.Self, cs.Off0, cs.Tol, cs.Start, cs.T, cs.Polls)
 	if panicked {
 		c.Violate("viewchange:"+ruleName+"-panic", fmt.Sprintf("panic %v", pv), cs)
 		c.Case(id, false)
@@ -312,7 +346,9 @@ func c26Check(c *kit.Ctx, cs *c26Case) {
 			// also for the carried-in view) make the two evaluations agree,
 			// and did an intermediate evaluation carry an offset >= n?
 			co, cd := c26RefV1(cs.Off0, time.Duration(cs.T), uint32(cs.N), true)
-			if (beyond || cs.Off0 >= uint32(cs.N)) && one.Off >= uint32(cs.N) {
+			kOne := c26KnownV1(cs, []int64{cs.T})
+			kFold := c26KnownV1(cs, append(append([]int64(nil), cs.Polls...), cs.T))
+			if (beyond || cs.Off0 >= uint32(cs.N)) && one.Off >= uint32(cs.N) && kOne == one && kFold == fold {
 				sig = "viewchange:v1-first-step-vs-loop"
 				c.Inc("diag_v1_carried_offset_beyond_round")
 			}
